@@ -253,6 +253,13 @@ impl<'a> Rewriter<'a> {
     }
 
     fn check_tracing_args(&mut self, m: &Macro) {
+        // D7: a debug_assert*! is absent from release builds together with any side effect of its arguments: dropping it is the
+        // release-build semantics (recorded, not refused)
+        let first = m.path.segments.first().map(|s| s.ident.to_string()).unwrap_or_default();
+        if first.starts_with("debug_assert") {
+            self.dropped.push(format!("D7 {}!({})", first, compact(&m.tokens.to_string())));
+            return;
+        }
         let s = compact(&m.tokens.to_string());
         if s.contains(".await") {
             self.errors.push(format!("D2: tracing macro with .await argument: {}", s));
